@@ -96,6 +96,9 @@ def device_queries(tier):
                         (2, ["R(0,1)", "R(0,0)", "T(0,1)", "T(0,0)", "X"])):
         words = ["R(0,1) T(0,1) R(0,1) T(0,1) X", "R(0,1) R(1,1) T(1,1) T(0,1) R(1,1) X" if kind == 0 else "R(0,1) T(0,1) R(0,0)",
                  "R(0,1) R(1,1) T(0,0)" if kind == 0 else "R(0,1) X", "R(0,1) X", "X", "R(0,1) R(1,1) X" if kind == 0 else "R(0,1) T(0,0)"]
+        if kind == 0:
+            # a receive that completed successfully just before the other path failed (completion callback still pending)
+            words += ["Q(0)", "Q(1)", "R(0,1) T(0,1) Q(0)", "R(1,1) T(1,1) Q(1)"]
         words += skel.enumerate_words(alpha, k, first=["R(0,1)", "R(0,0)", "R(1,1)", "X"], limit=60 if tier == "quick" else 1500, suffix="")
         seen = set()
         for w in words:
